@@ -17,6 +17,7 @@ package storage
 
 import (
 	"context"
+	"encoding/binary"
 	"errors"
 	"fmt"
 	"log/slog"
@@ -630,10 +631,41 @@ func (l *PartitionLog) sliceCachedSegment(seg segmentRange, entries []*IndexEntr
 	if start < 0 || end < start {
 		return nil, ErrOffsetOutOfRange
 	}
+	// The index is sparse: the entry may point several batches before the one
+	// holding offset. Move the window forward to that batch so a small maxBytes
+	// cannot yield only batches the consumer has already passed.
+	limit := seg.size - segmentFooterLen
+	if limit > int64(len(data)) {
+		limit = int64(len(data))
+	}
+	if adv := skipBatchesBefore(data, start, limit, offset); adv > start {
+		end += adv - start
+		if end > limit-1 {
+			end = limit - 1
+		}
+		start = adv
+	}
 	if end >= int64(len(data)) {
 		end = int64(len(data)) - 1
 	}
 	return append([]byte(nil), data[start:end+1]...), nil
+}
+
+// skipBatchesBefore walks the record batch frames in data[start:limit] and
+// returns the position of the first batch whose last offset reaches offset. It
+// stops at the current position when the framing cannot be followed.
+func skipBatchesBefore(data []byte, start, limit, offset int64) int64 {
+	for start >= 0 && start+recordBatchHeaderMinSize <= limit {
+		hdr := data[start : start+recordBatchHeaderMinSize]
+		base := int64(binary.BigEndian.Uint64(hdr[0:8]))
+		frameLen := int64(12) + int64(int32(binary.BigEndian.Uint32(hdr[8:12])))
+		last := base + int64(int32(binary.BigEndian.Uint32(hdr[23:27])))
+		if last >= offset || frameLen < recordBatchHeaderMinSize || start+frameLen+recordBatchHeaderMinSize > limit {
+			break
+		}
+		start += frameLen
+	}
+	return start
 }
 
 func sliceFullSegmentData(data []byte, maxBytes int32) []byte {
@@ -658,6 +690,12 @@ func sliceFullSegmentData(data []byte, maxBytes int32) []byte {
 
 func (l *PartitionLog) segmentRangeForOffset(seg segmentRange, entries []*IndexEntry, offset int64, maxBytes int32) (bool, *ByteRange) {
 	if seg.size <= 0 || len(entries) == 0 {
+		return false, nil
+	}
+	// A range read returns the bytes as they are, so it is only usable when the
+	// index entry is exactly at offset. Otherwise the batch holding offset has to
+	// be located in the segment data (full download, then sliceCachedSegment).
+	if findIndexEntry(entries, offset).Offset < offset {
 		return false, nil
 	}
 	start, end := l.computeSegmentRange(seg, entries, offset, maxBytes)
